@@ -1,16 +1,62 @@
 pub mod clock;
 pub mod keys;
 pub mod world;
+pub mod rp;
+pub mod ops;
+pub mod fingerprint;
+pub mod e1;
+pub mod e1run;
+pub mod report;
+pub mod checks;
 
 fn main() {
     let args: Vec<String> = std::env::args().collect();
     match args.get(1).map(|s| s.as_str()) {
         Some("smoke") => smoke(),
+        Some("canon") => {
+            // kcheck canon <ops.json> : print canonical state after ops (C01 world)
+            init_engine();
+            let ops: Vec<ops::Op> = serde_json::from_slice(&std::fs::read(&args[2]).unwrap()).unwrap();
+            let dir = std::path::PathBuf::from(format!("/dev/shm/kverif-canon-{}", std::process::id()));
+            let _ = std::fs::remove_dir_all(&dir);
+            std::fs::create_dir_all(&dir).unwrap();
+            std::env::set_current_dir(&dir).unwrap();
+            let mut w = checks::c01::build_w3(checks::c01::world_cfg(2, 2)).unwrap();
+            for op in &ops { let o = w.apply_pumped(op); eprintln!("{op} -> {:?}", o.err); w.settle().unwrap(); }
+            println!("{}", serde_json::to_string_pretty(&fingerprint::canonical(&w)).unwrap());
+            let _ = std::env::set_current_dir("/");
+            let _ = std::fs::remove_dir_all(&dir);
+        }
+        Some(id) if id.starts_with('C') => {
+            init_engine();
+            let tier = report::tier_from_args(&args);
+            let code = match id {
+                "C01" => checks::c01::run(&tier, &args),
+                _ => { eprintln!("unknown property {id}"); 2 }
+            };
+            std::process::exit(code);
+        }
         _ => {
             eprintln!("usage: kcheck <Cxx|smoke> ...");
             std::process::exit(2);
         }
     }
+}
+
+/// Common process set-up for all engines: frozen virtual clock, key pool,
+/// fatal hook (observe would-be process::exit as a panic), quiet panics.
+pub fn init_engine() {
+    clock::self_test();
+    clock::freeze();
+    keys::install(std::env::var("VERIF_REAL_KEYGEN").is_err());
+    krill::commons::verif::set_fatal_hook(Some(std::sync::Arc::new(|reason| {
+        panic!("KRILL-FATAL(process::exit): {reason}");
+    })));
+    std::panic::set_hook(Box::new(|info| {
+        if std::env::var("VERIF_PANIC_TRACE").is_ok() {
+            eprintln!("panic: {info}");
+        }
+    }));
 }
 
 fn smoke() {
@@ -33,8 +79,47 @@ fn smoke() {
         println!("{name}: {} files", d.current_files.len());
         for f in &d.current_files { println!("   {}", f.uri); }
     }
+    match rp::full_check(&w) {
+        Ok(r) => println!("RP ok: {} cas, {} accepted, vrps {:?}", r.cas.len(), r.accepted.len(), r.vrps),
+        Err(e) => println!("RP problems: {e:#?}"),
+    }
+    let mut w = w;
+    let o = w.apply_pumped(&ops::Op::Roa{ca:"ca".into(), add: vec!["10.0.0.0/24 => 65000".into(), "10.0.1.0/24-25 => 65000".into()], del: vec![]});
+    println!("roa add: {o:?}");
+    let o = w.apply_pumped(&ops::Op::AspaSet{ca:"ca".into(), customer: 65000, providers: vec![65001, 65002]});
+    println!("aspa: {o:?}");
+    let o = w.apply_pumped(&ops::Op::BgpsecAdd{ca:"ca".into(), asn: 65000, csr: 0});
+    println!("bgpsec: {o:?}");
+    let o = w.apply_pumped(&ops::Op::BgpsecAdd{ca:"ca".into(), asn: 65000, csr: 1});
+    println!("bgpsec1: {o:?}");
+    match rp::full_check(&w) {
+        Ok(r) => println!("RP ok: {} cas, {} accepted, vrps {:?} aspas {:?} rk {:?}", r.cas.len(), r.accepted.len(), r.vrps, r.aspas, r.router_keys),
+        Err(e) => println!("RP problems: {e:#?}"),
+    }
+    if std::env::var("FPDIFF").is_ok() {
+        w.settle().unwrap();
+        let a = fingerprint::canonical(&w);
+        let o = w.apply_pumped(&ops::Op::Roa{ca:"ca".into(), add: vec![], del: vec!["10.9.0.0/24 => 65000".into()]});
+        println!("rejected op: {o:?}");
+        w.settle().unwrap();
+        let b = fingerprint::canonical(&w);
+        fn diff(p: &str, a: &serde_json::Value, b: &serde_json::Value) {
+            match (a, b) {
+                (serde_json::Value::Object(x), serde_json::Value::Object(y)) => {
+                    for (k, v) in x { match y.get(k) { Some(v2) => diff(&format!("{p}/{k}"), v, v2), None => println!("- {p}/{k}") } }
+                    for k in y.keys() { if !x.contains_key(k) { println!("+ {p}/{k}"); } }
+                }
+                _ => if a != b { println!("~ {p}: {} -> {}", a.to_string().chars().take(200).collect::<String>(), b.to_string().chars().take(200).collect::<String>()); }
+            }
+        }
+        diff("", &a, &b);
+    }
+    if std::env::var("DUMP").is_ok() {
+        let c = w.krill.ca_manager().get_ca(&world::ca("ca")).unwrap();
+        println!("{}", serde_json::to_string_pretty(c.as_ref()).unwrap());
+    }
     println!("pending: {:?}", w.pending_tasks());
     println!("running: {:?}", w.running_tasks());
     let _ = std::env::set_current_dir("/");
-    let _ = std::fs::remove_dir_all(&dir);
+    if std::env::var("KEEP").is_err() { let _ = std::fs::remove_dir_all(&dir); } else { println!("kept {}", dir.display()); }
 }
